@@ -1559,6 +1559,8 @@ def m_copy(ex, st, args, kwargs, node):
         return _out(PyList(list(v.items)), st)
     if isinstance(v, PyDict):
         return _out(PyDict(dict(v.d)), st)
+    if isinstance(v, ty.ObjV):
+        return _out(m_copy_obj(ex, st, v, node), st)
     raise _U(f"copy.copy of {v!r}", node)
 
 
@@ -1685,6 +1687,24 @@ def m_ordered_dict(ex, st, args, kwargs, node):
     return _out(PyDict({}), st)
 
 
+def m_json_load(ex, st, args, kwargs, node):
+    """json.load(file): the document is whatever the contract of the function under verification says a file of that kind holds (extra['json_load'],
+    a builder of symbolic values) - the file system is outside the model"""
+    b = getattr(ex, "cur_extra", {}).get("json_load")
+    if b is None:
+        raise _U("json.load without a document builder in the contract", node)
+    return _out(b(ex, st), st)
+
+
+def m_copy_obj(ex, st, v, node):
+    """copy.copy(object): a new object of the same class whose fields hold the same values (shallow)"""
+    new = ex.alloc_obj(st, v.cls)
+    for fname in ex.reg.all_fields(v.cls):
+        ex.write_field(st, new, fname, ex.read_field(st, v, fname, node), node)
+    return new
+
+
+MODULE_FUNCS["json.load"] = m_json_load
 MODULE_FUNCS["collections.OrderedDict"] = m_ordered_dict
 MODULE_FUNCS["collections.deque"] = m_deque
 MODULE_FUNCS["numpy.arange"] = m_np_arange
@@ -1749,6 +1769,20 @@ def mutate(ex, st, recv, meth, args, kwargs, node):
             if isinstance(recv.elem, ty.RefT):
                 from . import heaplib
                 heaplib.append_axiom(st, recv, new, v.ref)
+            return [(new, None, st, None)]
+        if meth == "sort" and isinstance(recv.elem, ty.RefT) and not args and set(kwargs) <= {"key", "reverse"}:
+            # list.sort(key=...) of a list of objects: SOME rearrangement of the same objects (the order it establishes is not modelled - a sound
+            # over-approximation: whatever is proved afterwards holds for every order)
+            from . import seqlib
+            ra = z3.Const(ty.fresh_name("sortedinplace"), recv.arrs[0].sort())
+            for f in seqlib.permutation_facts(ra, recv.len, recv.arrs[0], recv.len):
+                st.assume(f)
+            return [(ty.SeqV(recv.elem, [ra], recv.len), None, st, None)]
+        if meth == "extend" and isinstance(args[0], ty.SeqV) and len(args[0].arrs) == len(recv.arrs):
+            other = args[0]
+            i = z3.Int(ty.fresh_name("xi"))
+            new = ty.SeqV(recv.elem, [z3.Lambda([i], z3.If(i < recv.len, z3.Select(a, i), z3.Select(b, i - recv.len))) for a, b in zip(recv.arrs, other.arrs)],
+                          recv.len + other.len)
             return [(new, None, st, None)]
         if meth == "popleft" or (meth == "pop" and args and args[0] == 0):
             out = []
